@@ -11,7 +11,7 @@ LEVEL = "exploration"
 ASSUMPTIONS = [
     "points are accepted when a global equilibrium among the phases listed for the system returns the matrix phase alone (acceptance is counted); local (single-phase) equilibria of pycalphad are trusted for the chemical potentials",
     "finite differences: central, step 1e-3 of each mole fraction, compared at 1e-4 of the largest entry (truncation (h/x)^2/3 ~ 3e-7; measured maximum deviation over 150 points 9.5e-6, median 3e-7)",
-    "tracer diffusivity = R*T*mobility is a differential between two code paths (thermodynamics module vs the diffusion module's computeMobility); systems described by diffusivity parameters instead of mobilities (Al-Zr) are only judged on the curvature and positivity clauses",
+    "tracer diffusivity = R*T*mobility is a differential between two code paths (thermodynamics module vs the diffusion module's computeMobility); systems described by diffusivity parameters instead of mobilities (Al-Zr) are only judged on the curvature and positivity clauses; compared at rtol 1e-5 (the two paths converge their own equilibria: measured deviation up to 7e-7 for dilute Cu-Ti)",
 ]
 R = 8.314
 SYSTEMS = {
@@ -21,6 +21,9 @@ SYSTEMS = {
     "nial_fcc": ("NICRAL_TDB", ["NI", "AL"], ["FCC_A1", "BCC_A2"], [(0.005, 0.12)], (1200, 1550)),
     "fecrni_fcc": ("FECRNI_DB", ["FE", "CR", "NI"], ["FCC_A1", "BCC_A2"], [(0.01, 0.25), (0.08, 0.5)], (1150, 1550)),
     "fecrni_bcc": ("FECRNI_DB", ["FE", "CR", "NI"], ["BCC_A2", "FCC_A1"], [(0.1, 0.6), (0.002, 0.05)], (900, 1500)),
+    # element orders that are cyclic rotations of the alphabetical order (the un-sorting permutation is not its own inverse there)
+    "nicral_fcc_rot": ("NICRAL_TDB", ["NI", "AL", "CR"], ["FCC_A1", "BCC_A2"], [(0.005, 0.14), (0.005, 0.30)], (1200, 1550)),
+    "fecrni_fcc_rot": ("FECRNI_DB", ["FE", "NI", "CR"], ["FCC_A1", "BCC_A2"], [(0.08, 0.5), (0.01, 0.25)], (1150, 1550)),
     "alzr_fcc": ("ALZR_TDB", ["AL", "ZR"], ["FCC_A1", "AL3ZR"], [(1e-6, 5e-4)], (600, 900)),
     "almgsi_fcc": ("ALMGSI_DB", ["AL", "MG", "SI"], ["FCC_A1", "MGSI_B_P", "MG5SI6_B_DP"], [(1e-4, 0.01), (1e-4, 0.008)], (600, 850)),
     "cuti_fcc": ("/examples/CuTi.tdb", ["CU", "TI"], ["FCC_A1", "CU4TI"], [(1e-4, 0.03)], (800, 1150)),
@@ -123,7 +126,7 @@ def check_point(case):
             out.label("mobility_model")
             xfull = np.concatenate([[1 - x.sum()], x])
             M = np.array(md.mobility[0][0], dtype=float) / xfull          # computeMobility multiplies by the u-fraction (all substitutional here)
-            if not np.allclose(Dtr, R * T * M, rtol=1e-8):
+            if not np.allclose(Dtr, R * T * M, rtol=1e-5, atol=0):
                 out.fail("tracer_not_RT_mobility", "%s x=%r T=%r: tracer diffusivity %r, R*T*mobility %r" % (name, x.tolist(), T, Dtr.tolist(), (R * T * M).tolist()))
             MM = np.array(mobility_matrix(cset, th.mobCallables[ph], th.mobility_correction), dtype=float)
             cs_ = np.sum(MM, axis=0)
@@ -132,7 +135,7 @@ def check_point(case):
             if n == 1 and ok_fd:
                 xa, xb = xfull[0], xfull[1]
                 darken = (xb * Dtr[0] + xa * Dtr[1]) * xa * xb / (R * T) * FD[0, 0]
-                if not np.isclose(D[0, 0], darken, rtol=5e-4):
+                if not np.isclose(D[0, 0], darken, rtol=5e-4, atol=0):
                     out.fail("darken_relation", "%s x=%r T=%r: interdiffusivity %r, Darken combination of tracer diffusivities and finite-difference curvature %r" % (name, x.tolist(), T, D[0, 0], darken))
     finally:
         sys.stdout = so
